@@ -20,6 +20,9 @@ func TestPropMerkle(t *testing.T) {
 		m := sm.New(t, sm.Opts{Maint: true})
 		defer m.Close()
 		t.Repeat(m.Actions(m.Check))
+		if m.Abandoned {
+			return // inconclusive (counted by the machine), neither a pass nor a failure
+		}
 		shape := m.Shape()
 		has := func(s string) bool {
 			for _, x := range shape {
